@@ -76,7 +76,10 @@ func scenario(k int) {
 		startComplete, withSeeder = false, true
 		scripts[1].Kind = "ok"
 	}
-	label := fmt.Sprintf("%s http=%s udp=%s startComplete=%v seeder=%v slowconnect=%v", id, scripts[0], scripts[1], startComplete, withSeeder, slowConnect)
+	// one scenario in five: only the HTTP tracker is in the .torrent, the UDP tracker is added by the user right after
+	// Start(), while the files are still being allocated (storage Open slowed down)
+	lateTracker := k%5 == 2
+	label := fmt.Sprintf("%s http=%s udp=%s startComplete=%v seeder=%v slowconnect=%v lateTracker=%v", id, scripts[0], scripts[1], startComplete, withSeeder, slowConnect, lateTracker)
 	run.CaseStart(label)
 	defer run.CaseEndDeferred(label)
 	dir := filepath.Join(run.Work, fmt.Sprintf("s%d", k))
@@ -202,6 +205,16 @@ func scenario(k int) {
 		defer func() { closeSession(); close(stopAcc); ln.Close(); wg.Wait() }()
 	}
 	tb := gen.TorrentBytes(info, [][]string{{ht.URL}, {ut.URL}}, nil)
+	if lateTracker {
+		tb = gen.TorrentBytes(info, [][]string{{ht.URL}}, nil)
+		prov.Hooks.Delay = func(kind, name string, off int64) time.Duration {
+			if kind == "open" {
+				return 120 * time.Millisecond
+			}
+			return 0
+		}
+		run.Count("late_tracker_scenarios", 1)
+	}
 	t, err := s.AddTorrent(bytes.NewReader(tb), &torrent.AddTorrentOptions{ID: tid, Stopped: true})
 	if err != nil {
 		run.Inconclusive("add: " + err.Error())
@@ -220,6 +233,9 @@ func scenario(k int) {
 		st0 := t.Stats()
 		w := runWin{start: time.Now(), wasCompleteAtStart: startComplete || (st0.Pieces.Total > 0 && st0.Pieces.Have == st0.Pieces.Total)}
 		t.Start()
+		if lateTracker && ri == 0 {
+			t.AddTracker(ut.URL)
+		}
 		sess.WaitFor(5*time.Second, func() bool { s := t.Stats().Status; return s == torrent.Downloading || s == torrent.Seeding })
 		port = t.Port()
 		t.AddPeer(seedAddr)
